@@ -451,3 +451,23 @@ Example rp_nonvacuous :
   rp_trace rfl_src rp0 rp_nonvacuous_schedule = [AReg 0; AReg 1; AReg 2; ARefresh; ARefresh; ARefresh; ARefresh] /\
   calls_done rfl_src rp0 rp_nonvacuous_schedule = 4.
 Proof. vm_compute. repeat split; reflexivity. Qed.
+
+(* ---------- the atomic machine IS the registration / refresh part of M-BE: on the projection
+   (registered, newflag, cache) of an M-BE state, fstep (FReg t) of a live thread is AReg t and refresh is
+   ARefresh (the other fields refresh touches - the transit buffers it creates - are not part of this
+   protocol) *)
+From Quill Require Backend.BEDefs.
+Definition be_proj (s : BEDefs.st) : arp :=
+  {| a_reg := BEDefs.registered s; a_flag := BEDefs.newflag s; a_cache := BEDefs.cache s |}.
+Lemma be_freg_is_areg K s t : BEDefs.tvalid (BEDefs.th s t) = true ->
+  be_proj (BEDefs.fstep K s (BEDefs.FReg t)) = ra_step (be_proj s) (AReg t).
+Proof.
+  intro V. cbn [BEDefs.fstep ra_step be_proj a_reg a_flag a_cache]. rewrite V. cbn [negb]. rewrite orb_false_r.
+  change (BEDefs.memb t (BEDefs.registered s)) with (rmemb t (BEDefs.registered s)).
+  destruct (rmemb t (BEDefs.registered s)); reflexivity.
+Qed.
+Lemma be_refresh_is_arefresh K s : be_proj (BEDefs.refresh K s) = ra_step (be_proj s) ARefresh.
+Proof.
+  unfold BEDefs.refresh. cbn [ra_step be_proj a_reg a_flag a_cache].
+  destruct (BEDefs.newflag s); reflexivity.
+Qed.
